@@ -62,6 +62,10 @@ type CaseIn struct {
 	// WriterSort: the rows are handed to record.SortHelper.SortForColumnStore (the memtable's flush sort) before Build,
 	// instead of being sorted by the harness in the order in which the index reader interprets keys
 	WriterSort bool `json:"writersort,omitempty"`
+	// NoTail: the index record is handed to Scan WITHOUT its trailing last-key row (the shape of the index the attached flush
+	// writes: one row per fragment start only); the reader then reads row N behind the record and must take it for "no
+	// upper bound". Only the direct oracle on Scan is applied to such a case (the model's index always has the last row).
+	NoTail bool `json:"notail,omitempty"`
 }
 
 type Rect struct {
@@ -774,6 +778,11 @@ func runCase(id int, in *CaseIn) *CaseOut {
 	if int(pkMark.GetFragmentCount()) != out.NFrag {
 		out.Oracle = append(out.Oracle, fmt.Sprintf("fragment count %d != %d", pkMark.GetFragmentCount(), out.NFrag))
 	}
+	if in.NoTail {
+		cut := record.NewRecord(pkRec.Schema.Copy(), false)
+		cut.AppendRec(pkRec, 0, pkRec.RowNums()-1)
+		pkRec = cut
+	}
 	reader := sparseindex.NewPKIndexReader(in.RPF, in.Coarse, in.MinRows)
 	var rgs fragment.FragmentRanges
 	p := guard(func() { rgs, err = reader.Scan("verif.idx", pkRec, pkMark, kc) })
@@ -800,6 +809,22 @@ func runCase(id int, in *CaseIn) *CaseOut {
 				out.Oracle = append(out.Oracle, fmt.Sprintf("scan pruned fragment %d which contains a matching row", f))
 			}
 		}
+	}
+	if in.NoTail {
+		pruned := 0
+		for f := 0; f < out.NFrag; f++ {
+			cov := false
+			for _, r := range out.Ranges {
+				cov = cov || (r[0] <= f && f < r[1])
+			}
+			if !cov {
+				pruned++
+			}
+		}
+		for _, m := range out.Match {
+			out.Nontriv = out.Nontriv || (m && pruned > 0 && out.Used > 0 && out.ScanErr == "")
+		}
+		return out
 	}
 	if fresh, _, e2 := w.build(); e2 == nil && !sameRecord(fresh, pkRec) {
 		out.Mutated = true
@@ -1414,6 +1439,10 @@ func main() {
 				in = lin
 				in.Tag = "litmix"
 			}
+		}
+		if i%12 == 7 && in.Tag == "" {
+			in.NoTail = true
+			in.Tag = "notail"
 		}
 		if i%25 == 24 && in.Tag == "" {
 			in = genSpecial(r, in)
